@@ -1,5 +1,5 @@
 """C14 - session nonces advance by exactly one per packet, big-endian, with full carry."""
-import random, re, time, collections
+import os, random, re, time, collections
 import common, diffrun, gen, stdflow
 from common import hx, rnd_bytes
 
@@ -59,6 +59,17 @@ def run(res, tier, seed, replay=None):
     t0 = time.time()
     rng = random.Random(seed)
     pr = stdflow.prove(res, "C14")
+    # concrete counter-examples of the (T) obligations for the nonce helpers (tools/kern_tag.py)
+    tj = os.path.join(common.BUILD, "kern", "tag.json")
+    if os.path.exists(tj):
+        import json as _json
+        for k, v in _json.load(open(tj)).items():
+            if k.startswith("nonce") and not v.get("concrete_ok", True):
+                res.violation("obligation-" + k, "translated %s does not meet its specification: output %s is %s, specified %s" %
+                              (v.get("title", k), (v.get("counterexample") or {}).get("output_index"), (v.get("counterexample") or {}).get("got"),
+                               (v.get("counterexample") or {}).get("want")),
+                              {"function": v.get("title", k), "counterexample": v.get("counterexample"),
+                               "how": "python3 tools/kern_tag.py /repo ; inputs are the 16 nonce bytes (then the counter)"})
     driver = common.build_driver()
     stats = {"ops": collections.Counter()}
     corr = diffrun.Corr()
